@@ -192,9 +192,19 @@ def run_T(desc, ctx):
         pool = rng.choice([[0, 1, 2, 3, 4, 5, 6], [0, 3, 6, 12, 18, 24, 48], [0, 1, 3, 6, 12, 13, 36, 72, 240], [0, 6, 12, 18, 24, 30, 36]])
         hours = rng.choice([None, [0], [0, 12]])
         twin_grids = rng.random() < 0.25
+        subhour = rng.random() < 0.3
+        sub_times = None
+        if subhour:
+            # a rapid-update cycle: runs 15-60 minutes apart, off the whole hour; windows of 1-3 h cut between them
+            t_ = rng.choice(gen.BOUNDARY_TIMES) + rng.choice([0, 900, 1200, 2700])
+            sub_times = [t_]
+            for _s in range(rng.randint(4, 8)):
+                t_ += rng.choice([900, 1200, 1800, 2700, 3600, 4500])
+                sub_times.append(t_)
         ds = gen.make_dataset(rng, n_inputs=2 if twin_grids else rng.choice([1, 2]), fmt=fmt, ens=ens, members=rng.randint(1, 4),
-                              miss=rng.choice([0.0, 0.1, 0.2]), sparse=0.0, leadtime_pool=pool, max_l=5, max_t=4, vrange=(1, 12), hours=hours,
-                              some_without_obs=rng.random() < 0.2, same_dims=twin_grids)
+                              miss=rng.choice([0.0, 0.1, 0.2]), sparse=0.0, leadtime_pool=pool, max_l=5, max_t=6 if subhour else 4, vrange=(1, 12),
+                              hours=hours, some_without_obs=rng.random() < 0.2, same_dims=twin_grids,
+                              times=sub_times)
         if twin_grids:
             # two grids of the same length with the same first and last lead time but another value in between
             i1 = ds["inputs"][1]
@@ -204,9 +214,12 @@ def run_T(desc, ctx):
             if inner and free:
                 gen.rename_leadtime(i1, rng.choice(inner), rng.choice(free))
                 ctx.count("T_grids_same_ends_other_interior")
-        tx = rng.choice(["leadtime", "leadtime", "time"])
+        tx = rng.choice(["leadtime", "leadtime", "time"]) if not subhour else "time"
         agg = rng.choice(TAGGS + ["sum", "sum", "mean", "mean", "max"])
-        if tx == "leadtime":
+        if subhour:
+            h = rng.choice([1, 1, 2, 3])
+            ctx.count("T_subhourly_time_cases")
+        elif tx == "leadtime":
             h = rng.choice([1, 2, 3, 6, 7, 12, 24, 25, 48, 200])
         else:
             h = rng.choice([1, 12, 24, 25, 48, 72, 200])
